@@ -320,6 +320,7 @@ def _alias_locals(node, cls=None):
     """{name: binding} for `x = self.attr` bound exactly once, never
     re-bound, where attr is a constructor-only data attribute of the class."""
     binds, stores_attr, stores_name = {}, set(), {}
+    fn_binds = {}
     ok_attrs = _init_only_attrs(cls)
     for n in _own_nodes(node):
         if isinstance(n, ast.Assign) and len(n.targets) == 1 \
@@ -328,6 +329,14 @@ def _alias_locals(node, cls=None):
                 and isinstance(n.value.value, ast.Name) \
                 and n.value.value.id == 'self' and n.value.attr in ok_attrs:
             binds.setdefault(n.targets[0].id, []).append(n)
+        # x = Cls.method / x = module.func: a function reference abbreviated
+        # (the local is only ever called)
+        elif isinstance(n, ast.Assign) and len(n.targets) == 1 \
+                and isinstance(n.targets[0], ast.Name) \
+                and isinstance(n.value, ast.Attribute) \
+                and isinstance(n.value.value, ast.Name) \
+                and n.value.value.id != 'self':
+            fn_binds.setdefault(n.targets[0].id, []).append(n)
         if isinstance(n, ast.Attribute) and isinstance(n.ctx, (ast.Store, ast.Del)):
             stores_attr.add(norm(n))
         if isinstance(n, ast.Name) and isinstance(n.ctx, (ast.Store, ast.Del)):
@@ -337,6 +346,20 @@ def _alias_locals(node, cls=None):
     for name, ns in binds.items():
         if len(ns) == 1 and stores_name.get(name, 0) == 1 and name not in args \
                 and norm(ns[0].value) not in stores_attr:
+            out[name] = ns[0]
+    for name, ns in fn_binds.items():
+        if len(ns) != 1 or stores_name.get(name, 0) != 1 or name in args \
+                or name in binds:
+            continue
+        head = ns[0].value.value.id
+        if head in args or head in stores_name:
+            continue                    # the head is a local object
+        loads = [n for n in _own_nodes(node)
+                 if isinstance(n, ast.Name) and n.id == name
+                 and isinstance(n.ctx, ast.Load)]
+        called = set(id(n.func) for n in _own_nodes(node)
+                     if isinstance(n, ast.Call))
+        if loads and all(id(n) in called for n in loads):
             out[name] = ns[0]
     return out
 
